@@ -330,7 +330,7 @@ MANIFEST = {
                   'with constants and keywords passed through by identity; lengths follow inputs / batch_size / 1 and mismatches '
                   'are refused; dtype=False keeps raw results; each external command line carries exactly the positional, keyword '
                   'and meta inputs and a seed that equals get_sub_seed(generator word, row) and differs between rows.',
-    'level_note': 'arity <= 2 (3 thorough), batch length <= 3; subprocess and fromstring are recording stubs; the seed claim '
+    'level_note': 'arity <= 2 (3 thorough), batch length <= 3; one harness with ordinary Python outputs of per-row solver-chosen type (int/float/bool/str/tuple/None); subprocess and fromstring are recording stubs; the seed claim '
                   'assumes the node uses meta (otherwise known finding C18/row-seed-needs-meta); symbolic values are traced through '
                   'string formatting by tokens; z3 trusted.',
 }
